@@ -114,6 +114,7 @@ def gen_item(rng, idx, tier, pid):
         force['override'] = {'minv': 'min'}
     maxpix = 48 if tier == 'quick' else 80
     force['big'] = True        # int64 data beyond 2**53 (not representable in float64) is part of the stream
+    force['allow_long'] = pid in ('C01', 'C03', 'C04', 'C05')     # axes longer than 16 bits count (plain compute checks only)
     case = gen.gen_compute_case(rng, maxpix=maxpix, force=force)
     if pid == 'C01' and idx % 5 == 0:
         boundary_default_case(rng, case)
